@@ -18,7 +18,12 @@ fn honest(rec: &mut Rec, ctx: &Ctx, idx: u64, rng: &mut ChaCha20Rng) {
       // reports over the C01 generator
       let sc = Scenario::gen(rng, ctx.thorough());
       let n = rng.gen_range(1..4);
-      let auxes: Vec<Option<Vec<u8>>> = (0..n).map(|_| aux(rng, sc.measurement.len(), ctx.thorough())).collect();
+      let mut auxes: Vec<Option<Vec<u8>>> = (0..n).map(|_| aux(rng, sc.measurement.len(), ctx.thorough())).collect();
+      if idx % 60 == 0 {
+        // a ciphertext chunk just below / at / above 2^16 bytes
+        let target = 65_536 + rng.gen_range(0..3) as usize - 1;
+        auxes[0] = Some(rand_bytes(rng, target.saturating_sub(8 + sc.measurement.len())));
+      }
       let reps = match sc.make_reports(rng, &auxes) {
         Ok(r) => r,
         Err(e) => {
@@ -64,8 +69,8 @@ fn honest(rec: &mut Rec, ctx: &Ctx, idx: u64, rng: &mut ChaCha20Rng) {
     1 => {
       // adss shares, message / coin lengths up to 100k
       let big = if ctx.thorough() { 100_000 } else { 5_000 };
-      let ml = *pick(rng, &[0usize, 1, 4, 32, 166, 167, 1000, big]);
-      let rl = *pick(rng, &[0usize, 1, 4, 32, 166, 1000, big]);
+      let ml = *pick(rng, &[0usize, 1, 4, 32, 166, 167, 1000, big, 65_535, 65_536, 70_000]);
+      let rl = *pick(rng, &[0usize, 1, 4, 32, 166, 1000, big, 65_535, 65_536]);
       let t = *pick(rng, &[0u32, 1, 2, 50, 1000, u32::MAX]);
       let t = if t > 50 && (ml > 1000 || rl > 1000) { 50 } else { t };
       let t = if t > 1000 { 1000 } else { t }; // dealing is O(t)
